@@ -1,7 +1,7 @@
 (** Properties_C16.v — C16: wire primitives round-trip exactly and reject what they
     cannot represent.  Statements only; each is closed by [exact] of a lemma proved in
     the *Proofs.v files. *)
-From GW Require Import Base Wire WireProofs Civil CivilSweep CivilProofs CivilProofs2 Quote Utf8Proofs QuoteProofs Href HrefProofs.
+From GW Require Import Base Wire WireProofs Civil CivilSweep CivilProofs CivilProofs2 Quote Utf8Proofs QuoteProofs QuoteStrict Href HrefProofs.
 Local Open Scope Z_scope.
 
 (** ** Depth (0, 1, infinity) *)
@@ -182,14 +182,12 @@ Theorem C16_etag_roundtrip : forall (is_print_hi : N -> bool) b,
 Proof. exact etag_roundtrip. Qed.
 Print Assumptions C16_etag_roundtrip.
 
-(** the text sent is a double-quoted string literal denoting the tag.  PARTIAL: shown for the
-    lenient grammar (the one the decoder implements); that the text never contains a byte
-    that is not valid UTF-8, hence is also a literal of the strict grammar, is checked per
-    run (etag_rt_spec_ok), not proved *)
-Theorem C16_etag_marshal_in_lenient_grammar_partial : forall (is_print_hi : N -> bool) b,
-  dq_den true (etag_marshal is_print_hi b) = Some b.
-Proof. exact etag_marshal_in_lenient_grammar. Qed.
-Print Assumptions C16_etag_marshal_in_lenient_grammar_partial.
+(** the text sent is a double-quoted interpreted string literal of the Go specification, in
+    the strict sense (it never contains a byte that is not valid UTF-8), denoting the tag *)
+Theorem C16_etag_marshal_in_grammar : forall (is_print_hi : N -> bool) b,
+  dq_den false (etag_marshal is_print_hi b) = Some b.
+Proof. exact etag_marshal_in_grammar. Qed.
+Print Assumptions C16_etag_marshal_in_grammar.
 
 (** strconv.Unquote (strconv.Quote b) = b *)
 Theorem C16_etag_unquote_quote : forall (is_print_hi : N -> bool) b, unquote (quote is_print_hi b) = Some b.
